@@ -116,7 +116,7 @@ cfg_64!(
             "setc {c}",
             "clc",
 
-            size = in(reg) size,
+            size = inout(reg) size => _,
             a = in(reg) lhs,
             b = in(reg) rhs,
             c = lateout(reg_byte) c,
